@@ -55,8 +55,13 @@ Raise == /\ Live /\ st.in
               /\ crash' = (crash \/ x \in {"CompilerCrash", "InternalError", "Other"})
          /\ last' = "raise"
 
+Span == /\ Live /\ st.pc < N
+        /\ \E q \in (st.pc + 1)..N :
+             st' = Apply(st, [e |-> "span", p |-> st.pc + 1, q |-> q, n |-> st.nerr], Kinds)
+        /\ UNCHANGED crash /\ last' = "span"
+
 Stutter == UNCHANGED vars
-Next == Enter \/ EnterWrong \/ Error \/ Exit \/ Raise \/ Stutter
+Next == Enter \/ EnterWrong \/ Error \/ Exit \/ Raise \/ Span \/ Stutter
 Spec == Init /\ [][Next]_vars
 
 ---------------------------------------------------------------------------
@@ -91,6 +96,16 @@ ViewChecked == (st.status # "bad" /\ AtEnd(st) /\ ~st.pending) =>
                  /\ FinalWhy(st, [Fin(st) EXCEPT !.escaped = "KeyError"], Kinds) # ""
                  /\ FinalWhy(st, [Fin(st) EXCEPT !.timeout = TRUE], Kinds) # ""
                  /\ (Generated(st, Kinds) => FinalWhy(st, [Fin(st) EXCEPT !.cc = "rejected"], Kinds) = "c-compiler-rejects")
+
+(* the shorthand event means what it abbreviates *)
+RECURSIVE Expand(_, _, _)
+Expand(p, q, n) == IF p > q THEN <<>>
+                   ELSE <<[e |-> "enter", p |-> p, n |-> n], [e |-> "exit", p |-> p, n |-> n]>> \o Expand(p + 1, q, n)
+SpanMeaning == (st.status = "run" /\ ~st.in) =>
+                 \A q \in (st.pc + 1)..N :
+                    LET a == Apply(st, [e |-> "span", p |-> st.pc + 1, q |-> q, n |-> st.nerr], Kinds)
+                        b == Run(st, Expand(st.pc + 1, q, st.nerr), 1, Kinds)
+                    IN a = b
 
 OutcomeClass(s) == IF Generated(s, Kinds) THEN "generated"
                    ELSE IF s.status = "run" THEN "errors-in-codegen"
